@@ -291,7 +291,6 @@ func runC12(c *Ctx) {
 	c12WriterGoroutineBounded(c)
 }
 
-
 // writerSpawn: a goroutine started (directly or in a same-package helper) by a transport's Do that can reach the ResponseWriter.
 type writerSpawn struct {
 	do     *ssa.Function
